@@ -12,6 +12,7 @@ Rewrites (one site at a time, applied to the source text):
   AUGEXP   `x += e` -> `x = x + e` for plain names
   PARENS   the test of an `if` / `while` wrapped in redundant parentheses
   ELSEIFY  `if c: ...; return` + REST -> `if c: ...; return else: REST`;  NESTIF `if a and b: X` -> nested ifs;  TEMP `return e` -> `result_ = e; return result_`
+  ANNOT    `x = e` -> `x: object = e` (locals and fields of self)
   INLOG    a debug-log call inserted as first statement of a nested block
   MERGEIF  nested ifs without else merged with `and`;  SWAPINDEP adjacent constant stores to different fields of self exchanged
   FSTR     'a{}b'.format(x) -> f'a{x}b'
@@ -147,6 +148,17 @@ def twins_in(func_node, btext, offs):
                     r = ast.Return(value=ast.Name(id="result_", ctx=ast.Load()))
                     ns, ne = _rng(st, offs)
                     out.append(("TEMP", ns, ne, _indent(_u(ast.fix_missing_locations(a)) + "\n" + _u(r), st.col_offset), st.lineno, "temporary for `%s`" % _u(st.value)[:40]))
+    # ANNOT: a plain assignment to a local name or a field of self gets a type annotation
+    k_ann = 0
+    for n in ast.walk(func_node):
+        if isinstance(n, ast.Assign) and len(n.targets) == 1 and isinstance(n.targets[0], (ast.Name, ast.Attribute)) and k_ann < 6 and \
+                not isinstance(n.value, (ast.Yield, ast.YieldFrom)):
+            if isinstance(n.targets[0], ast.Attribute) and not (isinstance(n.targets[0].value, ast.Name) and n.targets[0].value.id == "self"):
+                continue
+            m = ast.AnnAssign(target=n.targets[0], annotation=ast.Name(id="object", ctx=ast.Load()), value=n.value, simple=1 if isinstance(n.targets[0], ast.Name) else 0)
+            ns, ne = _rng(n, offs)
+            out.append(("ANNOT", ns, ne, _u(ast.fix_missing_locations(m)), n.lineno, "annotate `%s`" % _u(n)[:40]))
+            k_ann += 1
     # INLOG: a debug-log call inserted as first statement of a nested block (loop body, if body, else body, try body)
     for n in ast.walk(func_node):
         if n is func_node or isinstance(n, (ast.FunctionDef, ast.AsyncFunctionDef, ast.ClassDef, ast.Lambda)):
